@@ -1055,7 +1055,7 @@ static PyObject* max_step(PyObject *self, PyObject *args, PyObject *kwrds)
     PyObject *dims, *O, *Ok;
     int i, mk, len, maxn, ind = 0, ind2, int1 = 1, ld, Ns = 0, info, lwork,
         *iwork = NULL, liwork, iwl, m;
-    double t = -FLT_MAX, dbl0 = 0.0, *work = NULL, wl, *Q = NULL,
+    double t = -DBL_MAX, dbl0 = 0.0, *work = NULL, wl, *Q = NULL,
         *w = NULL;
     char *kwlist[] = {"x", "dims", "mnl", "sigma", NULL};
 
